@@ -44,6 +44,11 @@ def main():
                 if not any(k[0] == cl for k in agg):
                     print(f"   {rep.contract.ident}.{cl:40s} VACUOUS: no obligation generated")
                     bad += 1
+            inits = {k[0].split(".inv")[0] for k in agg if k[1] == "inv-init"}
+            pres = {k[0].split(".inv")[0] for k in agg if k[1] == "inv-preserve"}
+            for lp in sorted(inits - pres):
+                print(f"   {rep.contract.ident}.{lp:40s} VACUOUS: invariants but no preservation obligation")
+                bad += 1
         for (cl, kind), lst in agg.items():
             if kind == "cover":
                 ok = any(r["result"] == "sat" for _, r in lst)
